@@ -287,3 +287,28 @@ func KnownFunction(fn *ssa.Function) bool {
 	_, ok := frozen[FuncString(fn)]
 	return ok
 }
+
+// FreeKnown: the captured variable has a partner in the frozen table (or the
+// enclosing function has no frozen record at all, so nothing can be said).
+func FreeKnown(fn *ssa.Function, name string) bool {
+	frozenOnce.Do(loadFrozen)
+	for p := fn.Parent(); p != nil; p = p.Parent() {
+		fr, ok := frozen[FuncString(p)]
+		if !ok {
+			return true
+		}
+		c := CanonFree(fn, name)
+		for _, l := range fr.Locals {
+			if l == c {
+				return true
+			}
+		}
+		for _, l := range fr.Sig {
+			if l == c {
+				return true
+			}
+		}
+		return false
+	}
+	return true
+}
